@@ -148,6 +148,12 @@ spec fn const_defined(d0: Seq<DictEntry>, d1: Seq<DictEntry>, t: Seq<char>, v: C
 impl Xsubstr { #[verifier::external_body] pub fn as_str(&self) -> (r: &str) ensures r == sub_str(*self) { unimplemented!() } }
 // `&str -> ArcStr` (arcstr From): opaque
 #[verifier::external_body] fn verif_xstr_from_str(s: &str) -> Xstr { unimplemented!() }
+// the lexer (verified in units lexer / lex): here only that it yields a token and can name the text it just read
+impl Lex {
+    #[verifier::external_body] pub fn new(buf: Xstr) -> Lex { unimplemented!() }
+    #[verifier::external_body] pub fn next_nonws(&mut self) -> Xresult1<Tok> { unimplemented!() }
+    #[verifier::external_body] pub fn last_substr(&self) -> Xsubstr { unimplemented!() }
+}
 // `Xstr == str` (arcstr): equality of the texts
 #[verifier::external_body] fn xstr_eq_str(x: &Xstr, s: &str) -> (r: bool) ensures r == (xstr_text(*x) == name_text(s)) { unimplemented!() }
 // `substr == str` (arcstr): equality of the texts
